@@ -96,6 +96,8 @@ def marg_on(ctx, shard, tier, p, ident, kind, D, R, vi, mu, Sig, prep):
                 ctx.close("get_marginal.value", got, ref, facts=facts)
                 Sm_ref = np.array([Sig[r][np.ix_(dims, dims)] for r in range(R)])
                 objs.call_matches(ctx, "get_marginal.call_value", gotc, np.array([rm.gauss_logpdf(xm, *rm.marginal(mu[r], Sig[r], dims)) for r in range(R)]), facts=facts, lscale=objs.ln_scale(xm, Sm_ref))
+                if dims == sorted(dims) or len(dims) == D:
+                    objs.elementwise_matches(ctx, "get_marginal.elementwise", m, mu[:, dims], Sm_ref, facts=facts, salt=len(dims))
                 ctx.close("get_marginal.mu", np.asarray(m.mu), mu[:, dims], facts=facts)
                 ctx.close("get_marginal.Sigma", np.asarray(m.Sigma), np.array([Sig[r][np.ix_(dims, dims)] for r in range(R)]), facts=facts)
                 # integral of the joint's evaluated function over the dropped coordinates
@@ -172,6 +174,9 @@ def run_linsum(shard, ctx):
                         m, S = rm.pushforward(mu[r], Sig[r], Wb[r], br)
                         ref[r] = rm.gauss_logpdf(ys, m, S)
                     ctx.close("linear_sum.value", got, ref, facts=facts)
+                    if bmode == "vec":
+                        pf = [rm.pushforward(mu[r], Sig[r], Wb[r], None if bb is None else bb[r if len(bb) > 1 else 0]) for r in range(R)]
+                        objs.elementwise_matches(ctx, "linear_sum.elementwise", q, np.array([a_[0] for a_ in pf]), np.array([a_[1] for a_ in pf]), facts=facts, salt=wi)
                     Sq, Lq = np.asarray(q.Sigma), np.asarray(q.Lambda)
                     ctx.close("linear_sum.SigmaLambda", np.einsum("rij,rjk->rik", Sq, Lq), np.tile(np.eye(Ds)[None], (R, 1, 1)), symptom="incoherent", facts=facts)
                     ctx.close("linear_sum.entropy", np.asarray(q.entropy()), np.array([rm.entropy(rm.pushforward(mu[r], Sig[r], Wb[r])[1]) for r in range(R)]), facts=facts)
